@@ -140,9 +140,17 @@ def _orient_sign(s, H, quad=None):
 
 
 # ---------------------------------------------------------------- operations
+DIM = {"volume": 3, "surface_area": 2, "area": 2}
+
+
 def op_setter(prop):
     def f(s, H, V, i):
-        setattr(s, prop, V["v%d" % i])
+        # the free positive target is written as current_value * w**d (d = 3, 2, 1 for volumes, areas, lengths): a bijection of the
+        # positive reals, under which the code's scale factor (a cube / square root) is the polynomial w instead of a root atom
+        w = V["v%d" % i]
+        d = DIM.get(prop, 1)
+        cur = getattr(s, prop)
+        setattr(s, prop, cur * w ** d)
 
     f.names = lambda i: ["v%d" % i]
     f.positive = True
@@ -309,10 +317,10 @@ def _ob(kind, variant, ops, tier):
         fl.append(a.fset if isinstance(a, property) else a)
     fns = functions_encoded([x for x in fl if x is not None])
     def pre(V):
-        # size targets within 1/10 .. 1000: polytri's absolute thresholds are inactive there (their effect is C09's subject)
+        # scale factors within 1/4 .. 10 per operation: polytri's thresholds are inactive there (their effect is C09's subject)
         cs = []
         for n in pos:
-            cs += [V[n] >= F(1, 10), V[n] <= 1000]
+            cs += [V[n] >= F(1, 4), V[n] <= 10]
         return cs
 
     return (name, lambda: run_e2(name, names, make_body(kind, variant, ops), positive=pos, pre=pre, functions=fns, first_sample=first,
